@@ -190,7 +190,7 @@ func (in *instrumenter) stmts(list []ast.Stmt) []ast.Stmt {
 			out = append(out, s)
 			continue
 		case *ast.GoStmt:
-			out = append(out, s)
+			out = append(out, in.goStmt(st)...)
 			continue
 		case *ast.ForStmt:
 			if st.Cond != nil && len(in.visiblePositions(st.Cond)) > 0 && st.Post == nil && st.Init == nil {
@@ -380,4 +380,48 @@ func instrumentRepo(l *Loaded, outDir string) (map[string]string, error) {
 		res[name] = out
 	}
 	return res, nil
+}
+
+
+// goStmt gives the spawned goroutine an identity the controller can check: a token taken by the parent
+// just before the go statement (parent identity, site, occurrence) is bound by the child as its first
+// action. Function value and arguments are still evaluated by the parent, in order, at the go statement.
+func (in *instrumenter) goStmt(st *ast.GoStmt) []ast.Stmt {
+	call := st.Call
+	if id, ok := call.Fun.(*ast.Ident); ok {
+		if _, isBuiltin := in.info.Uses[id].(*types.Builtin); isBuiltin {
+			return []ast.Stmt{st}
+		}
+	}
+	p := in.fset.Position(st.Go)
+	in.n++
+	n := in.n
+	tok := ast.NewIdent(fmt.Sprintf("verifGoTok%d", n))
+	site := &ast.BasicLit{Kind: token.STRING, Value: fmt.Sprintf("%q", fmt.Sprintf("%s:%d", filepath.Base(p.Filename), p.Line))}
+	out := []ast.Stmt{&ast.AssignStmt{Lhs: []ast.Expr{tok}, Tok: token.DEFINE,
+		Rhs: []ast.Expr{&ast.CallExpr{Fun: ast.NewIdent("verifSpawnToken"), Args: []ast.Expr{site}}}}}
+	bind := &ast.ExprStmt{X: &ast.CallExpr{Fun: ast.NewIdent("verifBindChild"), Args: []ast.Expr{tok}}}
+	if fl, ok := call.Fun.(*ast.FuncLit); ok && len(call.Args) == 0 {
+		fl.Body.List = append([]ast.Stmt{bind}, fl.Body.List...)
+		return append(out, st)
+	}
+	var lhs, rhs, args []ast.Expr
+	fn := ast.NewIdent(fmt.Sprintf("verifGoFn%d", n))
+	lhs = append(lhs, fn)
+	rhs = append(rhs, call.Fun)
+	for i, a := range call.Args {
+		if tv, ok := in.info.Types[a]; ok && (tv.Value != nil || tv.IsNil()) {
+			args = append(args, a) // constants and nil stay in place (an untyped constant has no variable type)
+			continue
+		}
+		v := ast.NewIdent(fmt.Sprintf("verifGoArg%d_%d", n, i))
+		lhs = append(lhs, v)
+		rhs = append(rhs, a)
+		args = append(args, v)
+	}
+	out = append(out, &ast.AssignStmt{Lhs: lhs, Tok: token.DEFINE, Rhs: rhs})
+	inner := &ast.CallExpr{Fun: fn, Args: args, Ellipsis: call.Ellipsis}
+	st.Call = &ast.CallExpr{Fun: &ast.FuncLit{Type: &ast.FuncType{Params: &ast.FieldList{}},
+		Body: &ast.BlockStmt{List: []ast.Stmt{bind, &ast.ExprStmt{X: inner}}}}}
+	return append(out, st)
 }
